@@ -101,3 +101,13 @@ Definition jit_ok (mult_bits : Z) (rates : list Z) (outs : list Z) : bool :=
     let '(jn, jd) := frac_of_bits mult_bits in
     run_ok_b jn jd 0 rates outs &&
     ((jd <=? jn) || bounded_b jn jd (zmax_list rates) 0 rates outs).
+
+(* Jitter under a distribution (the trigger as the CLI builds it: the distribution spreads what
+   WithJitter returns for a whole period over the period's sub-ticks, and so it does with the
+   un-jittered rate). At the end of every period the two running totals differ by at most the
+   bound B = (jn*R + jd)/(jd - jn) of C13_bounded; inside a period each side has emitted part of
+   that period's value, which on the jittered side is at most (R + B)(1 + jn/jd) + 1 (the rate plus
+   the carried balance, varied by at most the jitter, rounded). Hence, at every sub-tick,
+   |difference| <= R (1 + j) + B (2 + j) + 1; multiplied out by jd (jd - jn): *)
+Definition composed_bound_ok (jn jd R maxdiff : Z) : bool :=
+  (jd - jn) * jd * maxdiff <=? (jd - jn) * R * (jd + jn) + (2 * jd + jn) * (jn * R + jd) + jd * (jd - jn).
